@@ -31,7 +31,10 @@ var c16Ops = []string{"add x 300", "add x 1100", "add y 600", "add y 2100", "rem
 	// one message to two recipients: two copies into one mailbox (x+a@, x+b@), and one each into x and y
 	"add2 x x 300", "add2 x y 600",
 	// a delivery whose source fails half way (straight to the store: the manager's source cannot fail)
-	"addfail x"}
+	"addfail x",
+	// a before.message_stored extension sends the message to a mailbox whose name is written with
+	// an upper-case letter (the stores keep names as given): its events carry that very name
+	"add-redirect Zed 300", "remove Zed oldest", "purge Zed"}
 
 type c16Case struct {
 	Spec sys.StoreSpec `json:"spec"`
@@ -109,6 +112,15 @@ func c16Exec(c *fw.Ctx, spec sys.StoreSpec, seq []int, from int) (key string, ex
 		})
 		st := s.StoreH.Store
 		deliveries := 0
+		redirectTo, redirectNext := "", "" // redirectNext: applies to the next real delivery only
+		s.Ext.Events.BeforeMessageStored.AddListener("verif-redirect", func(in event.InboundMessage) *event.InboundMessage {
+			if redirectTo == "" {
+				return nil
+			}
+			out := in
+			out.Mailboxes = []string{redirectTo}
+			return &out
+		})
 		fail := func(key, detail string) {
 			c.Violate(spec.Backend+"|"+key, fmt.Sprintf("%s\nstore %s, history: %s", detail, spec, strings.Join(cas.Ops, "; ")), cas)
 			extend = false
@@ -147,7 +159,10 @@ func c16Exec(c *fw.Ctx, spec sys.StoreSpec, seq []int, from int) (key string, ex
 			}
 			time.Sleep(time.Hour) // fake clock: messages are one hour apart
 			src := sizedBody(max(total-overhead, 30))
-			if err := s.Mgr.Deliver(from, rcs, "Received: from c ([pipe]) by verif.test\r\n", []byte(src)); err != nil {
+			redirectTo, redirectNext = redirectNext, ""
+			err := s.Mgr.Deliver(from, rcs, "Received: from c ([pipe]) by verif.test\r\n", []byte(src))
+			redirectTo = ""
+			if err != nil {
 				fail("deliver-error", "Deliver failed: "+err.Error())
 			}
 			deliveries += len(rcs)
@@ -160,6 +175,12 @@ func c16Exec(c *fw.Ctx, spec sys.StoreSpec, seq []int, from int) (key string, ex
 				var sz int
 				fmt.Sscan(f[2], &sz)
 				deliver(sz, f[1])
+				nontrivial = true
+			case "add-redirect":
+				var sz int
+				fmt.Sscan(f[2], &sz)
+				redirectNext = f[1]
+				deliver(sz, "x")
 				nontrivial = true
 			case "addfail":
 				d := sys.Delivery(f[1], "s@o.test", []string{f[1] + "@x.test"}, "f", "", time.Now())
@@ -266,7 +287,7 @@ func c16Exec(c *fw.Ctx, spec sys.StoreSpec, seq []int, from int) (key string, ex
 				}
 			}
 			live := map[string]bool{}
-			for _, mb := range []string{"x", "y"} {
+			for _, mb := range []string{"x", "y", "Zed", "zed"} {
 				ms, _ := st.GetMessages(mb)
 				for _, m := range ms {
 					live[mb+"/"+m.ID()] = true
